@@ -146,7 +146,8 @@ impl World {
         let (listener, socket) = rt.block_on(async {
             // wait until the server listens (however busy the machine is)
             for _ in 0..400 {
-                if TcpStream::connect(("127.0.0.1", server_port)).await.is_ok() {
+                // (a server whose start-up failed will never listen)
+                if tasks[0].is_finished() || TcpStream::connect(("127.0.0.1", server_port)).await.is_ok() {
                     break;
                 }
                 tokio::time::sleep(Duration::from_millis(25)).await;
@@ -392,9 +393,12 @@ impl World {
         self.rt.block_on(async move {
             let Ok(echo) = UdpSocket::bind("127.0.0.1:0").await else { return "no-loopback".to_owned() };
             let eport = echo.local_addr().unwrap().port();
+            let seen_at_target = Arc::new(std::sync::atomic::AtomicUsize::new(0));
+            let seen2 = seen_at_target.clone();
             tokio::spawn(async move {
                 let mut buf = vec![0u8; 4096];
                 while let Ok(Ok((l, from))) = tokio::time::timeout(Duration::from_secs(5), echo.recv_from(&mut buf)).await {
+                    seen2.fetch_add(1, std::sync::atomic::Ordering::SeqCst);
                     let _ = echo.send_to(&buf[..l], from).await;
                 }
             });
@@ -423,9 +427,20 @@ impl World {
                     if let Ok(Ok(_)) = tokio::time::timeout(Duration::from_millis(120), sock.recv_from(&mut buf)).await {
                         return "replay-answered".to_owned();
                     }
+                    if let Ok(Ok(_)) = tokio::time::timeout(Duration::from_millis(60), elsewhere.recv_from(&mut buf)).await {
+                        return "replay-answered-elsewhere".to_owned();
+                    }
                 }
             }
-            if lost.is_empty() { "ok".to_owned() } else { format!("lost:{:?}", lost).replace(' ', "") }
+            // each of the five datagrams reached the target exactly once: the replays did not
+            let n = seen_at_target.load(std::sync::atomic::Ordering::SeqCst);
+            if !lost.is_empty() {
+                format!("lost:{:?}", lost).replace(' ', "")
+            } else if n != 5 {
+                format!("target-saw:{}of5", n)
+            } else {
+                "ok".to_owned()
+            }
         })
     }
 
